@@ -26,8 +26,9 @@ Definition CV (nr : nat) (s : st) : Prop :=
   length (bufs s) = nr /\
   Forall (resp_ok nr) (oracle s).
 
-Definition resC (P : st -> Prop) (r : res) : Prop := match r with Ok s' => P s' | _ => True end.
-Lemma resC_bind (P1 P2 : st -> Prop) r f : resC P1 r -> (forall s1, P1 s1 -> resC P2 (f s1)) -> resC P2 (r >>= f).
+(* Blocked: the rank waits in an MPI call with its oracle exhausted - any cut of an execution *)
+Definition resC (P : st -> Prop) (r : res) : Prop := match r with Ok s' | Blocked s' => P s' | _ => True end.
+Lemma resC_bind (P1 : st -> Prop) r f : resC P1 r -> (forall s1, P1 s1 -> resC P1 (f s1)) -> resC P1 (r >>= f).
 Proof. destruct r; cbn; auto. Qed.
 
 Lemma buffered_upd_app b l i m : (i < length l)%nat ->
@@ -138,8 +139,8 @@ Section Conserve.
       + eapply resC_bind with (P1 := K); [apply (IH (PMcast _ _) (emit (NO u) s)); [apply forallb_rng, Hd|exact Hk]|]. intros s1 K1. exact K1.
       + eapply resC_bind with (P1 := K); [apply (IH PBarrier (emit (NBI (nbar s + 1)) (set_nbar (nbar s + 1) s))); exact Hk|].
         intros s1 K1. exact K1.
-      + unfold ask. cbn [oracle emit]. destruct (oracle s) as [|r rest0] eqn:Eo; [exact I|].
-        destruct (K_ask ECfBarrier s r rest0 I Hk Eo) as (K1 & _). exact K1.
+      + unfold ask. cbn [oracle emit]. destruct (oracle s) as [|r rest0] eqn:Eo; [exact Hk|].
+        destruct (K_ask ECfBarrier s r rest0 I Hk Eo) as (K1 & _). destruct r; try exact I. exact K1.
       + apply (IH PLocalProgress s Hk).
       + apply (IH (PWaitUntil f) s Hk).
       + exact Hk.
@@ -147,8 +148,8 @@ Section Conserve.
       + destruct (masks s); exact Hk.
       + exact Hk.
       + exact Hk.
-      + unfold ask. cbn [oracle emit]. destruct (oracle s) as [|r rest0] eqn:Eo; [exact I|].
-        destruct (K_ask EColl s r rest0 I Hk Eo) as (K1 & _). exact K1.
+      + unfold ask. cbn [oracle emit]. destruct (oracle s) as [|r rest0] eqn:Eo; [exact Hk|].
+        destruct (K_ask EColl s r rest0 I Hk Eo) as (K1 & _). destruct r; try exact I. exact K1.
     - (* PAsync *)
       intros Hm Hk. cbn [run].
       eapply resC_bind with (P1 := K).
@@ -198,7 +199,7 @@ Section Conserve.
       destruct (negb (intr s0)); [exact Hk|].
       eapply resC_bind with (P1 := K).
       + destruct (c_nisw c <? Z.of_nat (length (sendq s0))).
-        * unfold ask. cbn [oracle emit]. destruct (oracle s0) as [|r rest] eqn:Eo; [exact I|].
+        * unfold ask. cbn [oracle emit]. destruct (oracle s0) as [|r rest] eqn:Eo; [exact K0|].
           destruct (K_ask EWaitSR s0 r rest I K0 Eo) as (K1 & Hr).
           destruct r; try exact I.
           set (s1 := set_oracle rest (emit EWaitSR s0)) in *.
@@ -207,14 +208,14 @@ Section Conserve.
           destruct data as [ms|]; [|exact K2].
           eapply resC_bind with (P1 := K); [apply (IH (PHandle ms) _ Hr); exact K2|]. intros s3 K3. exact K3.
         * destruct (sendq s0) as [|z t]; [exact K0|].
-          unfold ask. cbn [oracle emit]. destruct (oracle s0) as [|r rest] eqn:Eo; [exact I|].
+          unfold ask. cbn [oracle emit]. destruct (oracle s0) as [|r rest] eqn:Eo; [exact K0|].
           destruct (K_ask ETestSend s0 r rest I K0 Eo) as (K1 & Hr).
           destruct r; try exact I. destruct flag; exact K1.
       + intros s4 K4.
         eapply resC_bind with (P1 := K); [apply (IH PLocalIncoming (set_ret false s4)); exact K4|].
         intros s5 K5. exact K5.
     - (* PLocalIncoming *)
-      intros Hk. cbn [run]. unfold ask. cbn [oracle emit]. destruct (oracle s) as [|r rest] eqn:Eo; [exact I|].
+      intros Hk. cbn [run]. unfold ask. cbn [oracle emit]. destruct (oracle s) as [|r rest] eqn:Eo; [exact Hk|].
       destruct (K_ask ETestRecv s r rest I Hk Eo) as (K1 & Hr).
       destruct r; try exact I. destruct data as [ms|]; [|exact K1].
       eapply resC_bind with (P1 := K); [apply (IH (PHandle ms) _ Hr K1)|]. intros s2 K2.
@@ -290,7 +291,7 @@ Section Conserve.
       apply (IH PReduceLoop (emit (EIallreduce (rcnt s) (scnt s)) (set_red_done false s))). exact Hk.
     - (* PReduceLoop *)
       intros Hk. cbn [run]. destruct (red_done s); [exact Hk|].
-      unfold ask. cbn [oracle emit]. destruct (oracle s) as [|r rest] eqn:Eo; [exact I|].
+      unfold ask. cbn [oracle emit]. destruct (oracle s) as [|r rest] eqn:Eo; [exact Hk|].
       destruct (K_ask EWaitIR s r rest I Hk Eo) as (K1 & Hr).
       destruct r; try exact I.
       set (s1 := set_oracle rest (emit EWaitIR s)) in *.
@@ -351,6 +352,30 @@ Proof.
     assert (Hb : buf_at s' (Z.of_nat i) <> []) by (unfold buf_at; rewrite Nat2Z.id, En; discriminate).
     specialize (I2 (Z.of_nat i) ltac:(lia) ltac:(discriminate) Hb). rewrite K2 in I2. exact I2. }
   rewrite B, app_nil_r in P. exact P.
+Qed.
+
+(* ... and at every cut of its execution (Blocked: waiting in an MPI call), what was appended is on the wire or still buffered *)
+Theorem rank_conserves_at_every_cut c nr fuel main orc :
+  (forall d, rng nr d -> rng nr (next_hop c d)) ->
+  Forall (rng nr) (locals_of c) ->
+  Forall (rng nr) (remote_partners_spec (c_n c) (c_p c) (c_me c)) ->
+  (forall u, forallb (dests_ok nr) (c_hprog c u) = true) ->
+  (forall i, forallb (dests_ok nr) (c_cbprog c i) = true) ->
+  forallb (dests_ok nr) main = true ->
+  Forall (resp_ok nr) orc ->
+  match run_rank fuel c nr main orc with
+  | Ok s' | Blocked s' => Permutation (enq s') (sent_of (log s') ++ buffered s')
+  | _ => True
+  end.
+Proof.
+  intros Hhop Hloc Hrem Hh Hcb Hm Ho. unfold run_rank.
+  assert (K0 : CV nr (init_st nr orc)).
+  { unfold CV, buffered, init_st. cbn. split; [|split; [constructor|split; [apply repeat_length|exact Ho]]].
+    rewrite buffered_all_empty; [constructor|]. intros i. clear. generalize i. induction nr; intros [|j]; cbn; auto. }
+  pose proof (conserve_all c nr Hhop Hloc Hrem Hh Hcb fuel (PActs main) (init_st nr orc) Hm K0) as C1. cbv zeta in C1.
+  destruct (run fuel c (PActs main) (init_st nr orc)) as [s1|s1| |]; cbn [bind]; try exact I; [|exact (proj1 C1)].
+  pose proof (conserve_all c nr Hhop Hloc Hrem Hh Hcb fuel PBarrier s1 C1) as C2. cbv zeta in C2.
+  destruct (run fuel c PBarrier s1); try exact I; exact (proj1 C2).
 Qed.
 
 (* what one async contributes to [enq]: exactly its own message, addressed to the next hop towards its destination
